@@ -20,7 +20,7 @@ CHECKS = {
         'harnesses': [
             {'name': 'Harness_C01_chardata', 'pkg': 'saml', 'replay': 'direct', 'must_reach': ['decoded'], 'opts': {'no_ascii_model': False}},
             {'name': 'Harness_C01_encrypted', 'pkg': 'saml', 'replay': 'direct', 'must_reach': ['accepted', 'rejected', 'accepted-by-inner-signature', 'accepted-by-response-signature'], 'validate_labels': ['accepted-by-inner-signature', 'accepted-by-response-signature', 'rejected'], 'label_prefix': 'C01', 'opts': {'K': 1}},
-            {'name': 'Harness_C04_artifact', 'pkg': 'saml', 'replay': 'direct', 'must_reach': ['accepted', 'rejected', 'accepted-by-artifact-signature'], 'validate_labels': ['accepted-by-artifact-signature'], 'label_prefix': 'C01', 'opts': {'K': 1}},
+            {'name': 'Harness_C04_artifact', 'pkg': 'saml', 'replay': 'direct', 'must_reach': ['accepted', 'rejected', 'accepted-by-artifact-signature'], 'validate_labels': ['accepted-by-artifact-signature'], 'label_prefix': 'C01', 'opts': {'time_res': 1000000, 'K': 1}},
             {'name': 'Harness_C01_flow', 'pkg': 'saml', 'replay': 'direct', 'must_reach': ['accepted', 'rejected', 'accepted-by-response-signature', 'accepted-by-assertion-signature'],
              'opts': {'time_res': 1000000}, 'quick': {'K': 1, 'params': {'assertions.max': 2}}, 'thorough': {'K': 1, 'params': {'assertions.max': 3}}},
             {'name': 'Harness_C01_trust', 'pkg': 'saml', 'replay': 'direct', 'must_reach': ['accepted', 'rejected', 'accepted-by-fingerprint', 'accepted-by-pinned-certificate'],
@@ -31,7 +31,7 @@ CHECKS = {
         'level_text': 'z3 decides, for all instants and tolerances at once, that acceptance implies every documented window and that strictly-inside implies acceptance, on the SSA of the real validateAssertion; counterexamples replayed natively.',
         'level_note': SP_ASSERTION_NOTE + FLOW_NOTE + 'Response-level IssueInstant and lexical time forms are covered by the flow harness where registered; time.Parse is library code (outside).',
         'harnesses': [
-            {'name': 'Harness_C04_artifact', 'pkg': 'saml', 'replay': 'direct', 'must_reach': ['accepted', 'rejected'], 'validate_labels': ['accepted'], 'label_prefix': 'C02', 'opts': {'params': {'artifact.layouts': 0}, 'K': 1}},
+            {'name': 'Harness_C04_artifact', 'pkg': 'saml', 'replay': 'direct', 'must_reach': ['accepted', 'rejected'], 'validate_labels': ['accepted'], 'label_prefix': 'C02', 'opts': {'time_res': 1000000, 'params': {'artifact.layouts': 0}, 'K': 1}},
             {'name': 'Harness_C02_flow', 'pkg': 'saml', 'replay': 'direct', 'must_reach': ['accepted', 'rejected'],
              'opts': {'time_res': 1000000}, 'quick': {'K': 1}, 'thorough': {'K': 1}},
             {'name': 'Harness_C02_assertion', 'pkg': 'saml', 'replay': 'direct', 'must_reach': ['accepted', 'rejected', 'accepted-two-confirmations'],
@@ -42,7 +42,7 @@ CHECKS = {
         'level_text': 'z3 decides that acceptance implies issuer = IdP entity ID, every Recipient = ACS URL and the audience rule (entity-ID fallback, hook) for all strings at once; replayed natively.',
         'level_note': SP_ASSERTION_NOTE + FLOW_NOTE,
         'harnesses': [
-            {'name': 'Harness_C04_artifact', 'pkg': 'saml', 'replay': 'direct', 'must_reach': ['accepted', 'rejected'], 'validate_labels': ['accepted'], 'label_prefix': 'C03', 'opts': {'params': {'artifact.layouts': 0}, 'K': 1}},
+            {'name': 'Harness_C04_artifact', 'pkg': 'saml', 'replay': 'direct', 'must_reach': ['accepted', 'rejected'], 'validate_labels': ['accepted'], 'label_prefix': 'C03', 'opts': {'time_res': 1000000, 'params': {'artifact.layouts': 0}, 'K': 1}},
             {'name': 'Harness_C03_flow', 'pkg': 'saml', 'replay': 'direct', 'must_reach': ['accepted', 'rejected', 'accepted-signed-response'],
              'opts': {'time_res': 1000000, 'params': {'status.nested': 1}}, 'quick': {'K': 1}, 'thorough': {'K': 1}},
             {'name': 'Harness_C03_assertion', 'pkg': 'saml', 'replay': 'direct', 'must_reach': ['accepted', 'rejected', 'accepted-with-audience'],
@@ -54,7 +54,7 @@ CHECKS = {
         'level_note': SP_ASSERTION_NOTE + FLOW_NOTE,
         'harnesses': [
             {'name': 'Harness_C09_artifact_http', 'pkg': 'saml', 'replay': 'direct', 'must_reach': ['accepted', 'rejected'], 'validate_labels': ['accepted', 'rejected'], 'label_prefix': 'C04', 'opts': {'K': 1}},
-            {'name': 'Harness_C04_artifact', 'pkg': 'saml', 'replay': 'direct', 'must_reach': ['accepted', 'rejected', 'accepted-by-artifact-signature'], 'validate_labels': ['accepted-by-artifact-signature'], 'label_prefix': 'C04', 'opts': {'K': 1}},
+            {'name': 'Harness_C04_artifact', 'pkg': 'saml', 'replay': 'direct', 'must_reach': ['accepted', 'rejected', 'accepted-by-artifact-signature'], 'validate_labels': ['accepted-by-artifact-signature'], 'label_prefix': 'C04', 'opts': {'time_res': 1000000, 'K': 1}},
             {'name': 'Harness_C04_flow', 'pkg': 'saml', 'replay': 'direct', 'must_reach': ['accepted', 'rejected', 'accepted-with-hook'],
              'opts': {'time_res': 1000000}, 'quick': {'K': 1}, 'thorough': {'K': 1}},
             {'name': 'Harness_C04_assertion', 'pkg': 'saml', 'replay': 'direct', 'must_reach': ['accepted', 'rejected', 'accepted-with-confirmation'],
@@ -68,7 +68,7 @@ CHECKS = {
             {'name': 'Harness_C09_inflate', 'pkg': 'saml', 'replay': 'direct', 'must_reach': ['read'], 'opts': {'panic_is_violation': True}, 'validate_reach': False},
             {'name': 'Harness_C01_encrypted', 'pkg': 'saml', 'replay': 'direct', 'must_reach': ['accepted', 'rejected', 'accepted-by-inner-signature', 'accepted-by-response-signature'], 'validate_labels': ['accepted-by-inner-signature', 'accepted-by-response-signature', 'rejected'], 'label_prefix': 'C09', 'opts': {'K': 1, 'panic_is_violation': True}},
             {'name': 'Harness_C09_artifact_http', 'pkg': 'saml', 'replay': 'direct', 'must_reach': ['accepted', 'rejected'], 'validate_labels': ['accepted', 'rejected'], 'label_prefix': 'C09', 'opts': {'K': 1, 'panic_is_violation': True}},
-            {'name': 'Harness_C04_artifact', 'pkg': 'saml', 'replay': 'direct', 'must_reach': ['accepted', 'rejected'], 'validate_labels': ['accepted'], 'label_prefix': 'C09', 'opts': {'params': {'artifact.layouts': 0}, 'K': 1, 'panic_is_violation': True}},
+            {'name': 'Harness_C04_artifact', 'pkg': 'saml', 'replay': 'direct', 'must_reach': ['accepted', 'rejected'], 'validate_labels': ['accepted'], 'label_prefix': 'C09', 'opts': {'time_res': 1000000, 'params': {'artifact.layouts': 0}, 'K': 1, 'panic_is_violation': True}},
             {'name': 'Harness_C09_flow', 'pkg': 'saml', 'replay': 'direct', 'must_reach': ['returned'],
              'opts': {'time_res': 1000000, 'panic_is_violation': True}, 'quick': {'K': 1}, 'thorough': {'K': 1}},
             {'name': 'Harness_C09_assertion', 'pkg': 'saml', 'replay': 'direct', 'must_reach': ['returned'],
